@@ -901,8 +901,9 @@ def corpus_decks():
             'cls': CLASS_OF[MULTI[2][2][0]],
             'aux': [CLASS_OF[f_] for f_ in MULTI[2][2][1:]],
             'sides': MULTI[2][3], 'single': False, 'locus': None, 'pool': None}
-    out.append((deck([card(1, '', 8), body],
-                     [{'id': 1, 'lits': [-1], 'imp': 1}, skip]), []))
+    for args in ([], ['--skip-geomcomp'], ['--skip-compositions']):
+        out.append((deck([card(1, '', 8), dict(body)],
+                         [{'id': 1, 'lits': [-1], 'imp': 1}, skip]), args))
     # one-sheet cone (two TRIPOLI-4 parts) flagged, weird flag after a star
     cone = {'id': 6, 'flag': '+', 'text': 'kz 0 1 1', 'mcnp': 1,
             'cls': CLASS_OF[('CONEZ', (0.0, 0.0, 0.0, 45.0))],
@@ -1292,11 +1293,19 @@ def tie_numbering(res, rng, n):
 # ---- run ---------------------------------------------------------------
 
 def args_for(rng):
+    '''An option set of main.conversion.  --skip-geomcomp and
+    --skip-compositions select other sections of the output: they must not
+    change the SURF lines or the BOUNDARY_CONDITION block (the model ignores
+    them; the oracle expects the block all the same).'''
     args = []
     if rng.random() < 0.45:
         args.append('--skip-deduplication')
     if rng.random() < 0.06:
         args.append('--skip-boundary-conditions')
+    if rng.random() < 0.22:
+        args.append('--skip-geomcomp')
+    if rng.random() < 0.15:
+        args.append('--skip-compositions')
     return args
 
 
@@ -1333,7 +1342,9 @@ def run(res, tier, seed, proofs_ok):
 
     # ---- 1. the decks that failed before the repair (fix: 540bd39) ----
     for kind in dict.fromkeys(k for _was, k in WITNESSES):
-        for args in ([], ['--skip-deduplication']):
+        for args in ([], ['--skip-deduplication'], ['--skip-geomcomp'],
+                     ['--skip-compositions', '--skip-geomcomp',
+                      '--skip-deduplication']):
             deck = witness(kind)
             conv, t4, _ = observe(deck, args)
             probs = oracle(deck, args, conv, t4, random.Random(1))
@@ -1381,6 +1392,8 @@ def run(res, tier, seed, proofs_ok):
                                     for x in c['lits']) for s in deck['surfs'])))
         res.count('impl:' + (conv.exc or 'ok'))
         res.count('dedup:' + str('--skip-deduplication' not in args))
+        res.count('options:' + (' '.join(sorted(a for a in args if a in (
+            '--skip-geomcomp', '--skip-compositions'))) or 'none'))
         walk = walk_order(deck)
         if walk:
             res.count('shape:implicit-walk-ascending:'
